@@ -186,7 +186,7 @@ def fn_display(it):
     return sel
 
 
-def run_unit(unit_dir, rlimit=None, probes=True, keep=True):
+def run_unit(unit_dir, rlimit=100, probes=True, keep=True):
     unit = os.path.basename(os.path.normpath(unit_dir))
     out_dir = os.path.join(BUILD, 'verus', unit)
     os.makedirs(out_dir, exist_ok=True)
